@@ -9,7 +9,7 @@ CLAIMED = {
  "C02": ("exploration", "deterministic simulation: seeded histories vs reference model (compare-and-append oracle)", "Every AddVersion of every generated history (incl. verbatim resends, several server instances, an exhaustive small-scope grid of 280 cases x 4 configurations) is compared with the model's accept/reject decision, id freshness, stored record and unchanged-on-reject projection.", "model + oracles trusted; id source is the simulator's", "§8 C02"),
  "C06": ("exploration", "deterministic simulation: chunked-upload transport seam + byte-exact model comparison", "Payload bytes compared byte-for-byte across chunkings (incl. uploads of several requests interleaving on one worker at the await points), sizes around page/overflow boundaries and at 256 KiB / 1 MiB / 100 MiB, byte classes, restarts, verbatim resends.", "real socket path not covered (HTTP codec stubbed)", "§8 C06"),
  "C07": ("exploration", "deterministic simulation: temporal re-read oracle inside seeded histories", "Previously accepted versions are re-read after every later operation, restart and at the end and compared with the model record.", "model trusted", "§8 C07"),
- "C08": ("exploration", "deterministic simulation: probe-then-add pairs on the same state + model table", "GetChildVersion answers are compared with the model and, directly, with the AddVersion issued on the same state (random histories, an exhaustive small-scope grid of 280 cases x 4 configurations, and scheduled batches where the two overlap).", "model trusted", "§8 C08"),
+ "C08": ("exploration", "deterministic simulation: probe-then-add pairs on the same state + model table", "GetChildVersion answers are compared with the model and, directly, with the AddVersion issued on the same state (random histories, an exhaustive small-scope grid of 280 cases x 4 configurations ending - library entry - with a model-free probe of a storage-created client whose latest id is non-nil, scheduled batches where the two overlap, and the wire grammar's re-spelled parent ids).", "model trusted", "§8 C08"),
  "C10": ("exploration", "deterministic simulation: seeded snapshot-focused histories vs window rule model", "AddSnapshot decisions compared with the five-version window rule in seeded histories, plus an exhaustive enumeration of the small scope (chain length 0..8 x base x snapshot position x class of v = 840 cases on both backends and entries); snapshot position monotonic; declined => projection unchanged.", "open corner (v = non-nil chain base) accepts either outcome", "§8 C10"),
  "C11": ("exploration", "deterministic simulation: GetSnapshot vs model + walk from snapshot", "After every history step GetSnapshot equals the last accepted upload (id and bytes) and the chain is walked from it to the latest.", "model trusted", "§8 C11"),
  "C12": ("exploration", "deterministic simulation: simulated clock jumps + swarm-chosen targets vs exact i128 thresholds", "Urgency of every accepted AddVersion compared with exact thresholds over swarm-chosen targets (incl. integer extremes), clock jumps biased to thresholds, counters from real histories or seeded through the storage seam.", "counter convention (before/after this request) latched per run; sub-second truncation allowed", "§8 C12"),
@@ -18,8 +18,8 @@ CLAIMED = {
  "C20": ("exploration", "deterministic simulation: global monitor on every HTTP response", "A monitor checks Cache-Control: no-store on every HTTP response the sequential, wire (all routes/methods/refusals/unknown routes) and storage-fault (500s) scenarios produce.", "requests enter at actix service layer", "§8 C20"),
 }
 CLAIMED.update({
- "C03": ("exploration", "deterministic simulation: seeded scheduler over parked real threads + brute-force linearizability search against the reference model", "2-4 overlapping requests on 2-3 simulated threads (in-memory; one or several SQLite instances on one directory; HTTP and library entry) under random / sticky / PCT / forced-preemption schedules at storage-call, transaction begin/end, chunk and lock-wait granularity; every batch must have a real-time-respecting order reproducing all responses and the final state; stall faults exercise the busy-timeout path with bounded-liveness check afterwards.", "several instances run in one process (SQLite's cross-process fcntl paths not exercised); known finding F1 (known_findings.json)", "§8 C03"),
- "C04": ("fault_enumeration", "deterministic simulation: shim SQLite VFS, crash image at every mutating VFS call (process-crash + sampled power-loss images), recovery + model comparison", "For each generated history every write/truncate/sync/delete issued while a request executes is a crash point; at each, the process-crash image and m power-loss images (synced content + kept/dropped/torn later writes) are recovered through SqliteStorage::new, integrity-checked, compared with the model state before/after the in-flight request, then served and extended; thorough adds crashes during recovery. Crashes while several requests are in flight: scheduled SQLite batches with image capture, where the recovered state must be a commit-order prefix (containing every acknowledged write) of a valid ordering of the batch.", "power-loss subsets are sampled, not enumerated; power-loss model = SQLite's own crash-test assumptions (sync is a barrier, sector-granular tearing); kill -9 is simulated by image capture", "§8 C04"),
+ "C03": ("exploration", "deterministic simulation: seeded scheduler over parked real threads + brute-force linearizability search against the reference model", "2-4 overlapping requests on 2-3 simulated threads (in-memory; one or several SQLite instances on one directory; HTTP and library entry) under random / sticky / PCT / forced-preemption schedules at storage-call, transaction begin/end, chunk and lock-wait granularity; every batch must have a real-time-respecting order reproducing all responses and the final state; stall faults exercise the busy-timeout path with bounded-liveness check afterwards. In a share of the SQLite batches, and in two dedicated jobs, one thread's requests are served by a server in ANOTHER PROCESS on the same directory (child process, one atomic scheduler step per request), so cross-process locking is real and process-wide state of the code under test is not shared; threads may be sessions (a request's id argument is taken from the previous response of its thread).", "a request served by the other process is never preempted by the parent's threads; known finding F1 (known_findings.json)", "§8 C03"),
+ "C04": ("fault_enumeration", "deterministic simulation: shim SQLite VFS, crash image at every mutating VFS call (process-crash + sampled power-loss images), recovery + model comparison", "For each generated history every write/truncate/sync/delete issued while a request executes is a crash point; at each, the process-crash image and m power-loss images (synced content + kept/dropped/torn later writes) are recovered through SqliteStorage::new, integrity-checked, compared with the model state before/after the in-flight request, then served and extended; thorough adds crashes during recovery. Every built-in unix VFS is shimmed under its own name and images include directory entries made outside SQLite's file I/O (lock directories, side files). Crashes while several requests are in flight: scheduled SQLite batches with image capture, where the recovered state must be a commit-order prefix (containing every acknowledged write) of a valid ordering of the batch.", "power-loss subsets are sampled, not enumerated; power-loss model = SQLite's own crash-test assumptions (sync is a barrier, sector-granular tearing); kill -9 is simulated by image capture", "§8 C04"),
  "C05": ("fault_enumeration", "deterministic simulation: fault injection at every storage call (before/after effect) and at VFS calls of every request, on a directory snapshot per request", "For every request of each generated history every storage-trait call is failed before and after taking effect (plus sampled pairs), and VFS calls are failed with I/O error kinds (IOERR, FULL, FSYNC, short read, CANTOPEN, BUSY, NOMEM; single and sticky windows); oracle: error response (or, for absorbed VFS errors, exact model outcome), state == before or == after only past the commit point, follow-up requests served without waiting.", "in-memory backend out of scope (property says persistent backend); VFS injections sampled to 60 per request", "§8 C05"),
  "C09": ("exploration", "deterministic simulation: two-run non-interference (multi-client history vs each client's projection re-run alone)", "Multi-client histories that deliberately quote other clients' ids are executed, then each client's own requests are re-run alone on a fresh world with the same clock timeline; responses must be identical modulo renaming of issued ids.", "model trusted for id-role naming", "§8 C09"),
  "C13": ("exploration", "deterministic simulation: lock-step differential run (memory vs SQLite vs SQLite restarted at random points)", "The same symbolic history runs in lock step on the three worlds under one whole-second simulated clock; responses compared modulo id bijection after every step, final states compared.", "histories stay within the storage contract (new_client only for absent clients)", "§8 C13"),
